@@ -576,6 +576,19 @@ func runTwo(out *lib.Out, id, config, variant string) {
 			w2.Write(b[100:])
 			ea = c1(ka)
 			eb = c2(kb)
+		case "abort-then-put":
+			// an aborted stream must leave nothing behind that a later put could pick up
+			w2, c2, err := st2.PutStream(ctx)
+			if err != nil {
+				return err
+			}
+			w2.Write(b[:100])
+			w2.Write(b[100:])
+			if err := c2(""); err != nil && lib.StoreErrClass(err) != "eemptykey" {
+				return err
+			}
+			ea = st1.Put(ctx, ka, a)
+			eb = st2.Put(ctx, kb, b)
 		case "put-inside-stream":
 			w2, c2, err := st2.PutStream(ctx)
 			if err != nil {
@@ -876,7 +889,7 @@ func main() {
 		emit(j)
 	}
 	// two stores on one directory
-	for i, v := range []string{"streams", "samekey", "put-inside-stream"} {
+	for i, v := range []string{"streams", "samekey", "put-inside-stream", "abort-then-put"} {
 		for j, sh := range []string{"r12", "r122", "r133"} {
 			runTwo(out, fmt.Sprintf("two%d.%d", i, j), sh+",q"+quirks, v)
 		}
